@@ -232,4 +232,5 @@ func TestC19(t *testing.T) {
 	s := hx.Begin(t, "C19")
 	defer s.End()
 	hx.Run(s, c19XML, s.N(3000, 30000))
+	hx.Run(s, c19Aug, s.N(1500, 15000))
 }
